@@ -19,7 +19,8 @@ RULE = ("histories of 1..10 (thorough ..30) operations on one frame: constructor
 UNIVERSE = ["x", "y", "z", "a b", "items", "filter", "nrow", "_q", "1a", "w"]
 TRANSFORMS = ["filter", "filter_out", "head", "tail", "sort", "unique", "rbind", "cbind", "select", "unselect", "rename", "modify", "update", "drop_na", "slice", "copy", "deepcopy", "sample",
               "cbind_long", "update_long", "slice_cols:rev", "slice_cols:neg", "slice_cols:out",
-              "modify_grouped:scalar", "modify_grouped:one", "modify_grouped:group", "modify_grouped:two", "modify_grouped:nrow", "modify_grouped:plus1"]
+              "modify_grouped:scalar", "modify_grouped:one", "modify_grouped:group", "modify_grouped:two", "modify_grouped:nrow", "modify_grouped:plus1",
+              "modify_first", "update_first", "modify_grouped_first"]
 
 
 def gen_shape(rng, nrow):
@@ -200,6 +201,18 @@ def transform(df, m):
         return df.rename(renamed=df.colnames[0]) if df.ncol else df
     if m == "modify":
         return df.modify(z=lambda x: np.arange(x.nrow))
+    if m == "modify_first":
+        # replaces an EXISTING column (the first one): it must keep its position
+        return df.modify(**{df.colnames[0]: lambda x: np.arange(x.nrow)}) if df.ncol else df
+    if m == "update_first":
+        return df.update(di.DataFrame(**{df.colnames[0]: np.arange(n)})) if df.ncol and n else df
+    if m == "modify_grouped_first":
+        if df.ncol < 2 or not n:
+            return df
+        try:
+            return df.group_by(df.colnames[-1]).modify(**{df.colnames[0]: lambda x: 1})
+        finally:
+            df._group_colnames = ()
     if m.startswith("modify_grouped:"):
         if not df.ncol:
             return df
@@ -220,6 +233,40 @@ def transform(df, m):
     if m == "sample":
         return df.sample(2)
     raise ValueError(m)
+
+
+def expected_names(m, order, n):
+    """the column names a transform must return, in order (None: not specified here): rows-only transforms keep the names and
+    their order; a replaced column keeps its POSITION, new columns are appended in the order given"""
+    def plus(*new):
+        out = list(order)
+        for c in new:
+            if c not in out:
+                out.append(c)
+        return out
+    if m in ("filter", "filter_none", "filter_out", "head", "tail", "sort", "unique", "rbind", "drop_na", "slice", "copy", "deepcopy", "sample",
+             "modify_first"):
+        return list(order)
+    if m == "update_first":
+        # update is "the receiver's columns that `other` does not have, then all of `other`'s": a replaced column moves to the end
+        return (list(order[1:]) + [order[0]]) if order and n else list(order)
+    if m == "cbind":
+        return plus("w", "v") if n else list(order)
+    if m == "select":
+        return list(order[:2])
+    if m == "unselect":
+        return list(order[1:])
+    if m == "rename":
+        return (["renamed"] + list(order[1:])) if order and "renamed" not in order else None
+    if m == "modify":
+        return plus("z")
+    if m.startswith("modify_grouped:"):
+        return plus("zg") if order else list(order)
+    if m == "modify_grouped_first":
+        return list(order)
+    if m == "update":
+        return ([c for c in order if c != "y"] + ["y"]) if n else list(order)
+    return None
 
 
 def observe(df):
@@ -293,6 +340,7 @@ def impl(case):
                 rec["grouped_bad"] = GROUPED_BAD[0]
                 rec["slice_expect"] = SLICE_EXPECT[0]
                 rec["names_after"] = list(dict.keys(out))
+                rec["names_expected"] = expected_names(st["m"], list(dict.keys(df)), int(df.nrow) if df.ncol else 0)
                 if not isinstance(out, di.DataFrame):
                     raise TypeError("transform did not return a DataFrame")
                 df = out
@@ -389,6 +437,9 @@ def judge(ctx, case, obs, mouts):
                     ctx.violation("oracle", "slice:cols-out-of-range-accepted", f"slice(cols=...) with a position beyond the columns returned {rec.get('names_after')}", sub, rec)
                 elif rec.get("names_after") != rec["slice_expect"]:
                     ctx.violation("oracle", "slice:cols-order", f"slice(cols=...) returned the columns {rec.get('names_after')}, requested by position: {rec['slice_expect']}", sub, rec)
+        if st["k"] == "transform" and rec["ok"] and rec.get("names_expected") is not None and rec.get("names_after") != rec["names_expected"]:
+            ctx.violation("oracle", f"order:transform:{st['m'].split(':')[0]}",
+                          f"{st['m']} returned the columns {rec.get('names_after')}, expected {rec['names_expected']} (names unique, order stable: modify keeps the position of a replaced column, update moves it behind the kept ones, new ones are appended)", sub, rec)
         if rec["ok"] and rec.get("grouped_bad"):
             ctx.violation("oracle", "modify_grouped:stores-mismatch", "a group-wise modify stored a result whose length is neither 1 nor the size of its group", sub, rec)
         if rec["ok"]:
